@@ -303,3 +303,88 @@ def r6_env_coherence(ctx):
 
 
 RULES = [r1_store_guard, r2_strong_read, r3_refcount, r4_queries, r5_lhs_kill, r6_env_coherence]
+
+
+def r7_increment_table(ctx):
+    ctx.rule("C15.r7", "small_range::increment (reference / cell counter of a region): the abstract counter after an increment is "
+             "ExactlyOne only when it was ExactlyZero, and OneOrMore from every other non-bottom value - also when the variable "
+             "recorded in 1(v) is the one being incremented for (an alias of the old value of v keeps what was counted alive); "
+             "decided by interpreting the body for the 5 counter kinds x same / other variable", floor=10)
+    SR = "include/crab/domains/small_range.hpp"
+    fns = ctx.db.fns(SR, name="increment")
+    if not ctx.need(fns, "small_range::increment", "C15.r7"):
+        return
+    KINDS = {"ExactlyZero": "ExactlyOne", "ExactlyOne": "OneOrMore", "ZeroOrOne": "OneOrMore", "ZeroOrMore": "OneOrMore",
+             "OneOrMore": "OneOrMore"}
+
+    class _Unk(Exception):
+        pass
+
+    for fn in fns[:1]:
+        body = fn["body"]
+
+        def cond(c, st):
+            c = strip(c)
+            k = c.get("k")
+            if k == "un" and c.get("op") == "!":
+                return not cond(c.get("e"), st)
+            if k == "bin" and c.get("op") in ("&&", "||"):
+                a = cond(c["L"], st)
+                if c["op"] == "&&":
+                    return a and cond(c["R"], st)
+                return a or cond(c["R"], st)
+            if k == "call" and callee(c) and callee(c)["name"] == "is_bottom":
+                return False
+            if k == "bin" and c.get("op") in ("==", "!="):
+                L, R = strip(c["L"]), strip(c["R"])
+                for a, b in ((L, R), (R, L)):
+                    if isinstance(a, dict) and a.get("k") == "mem" and a.get("n") == "m_kind" and isinstance(b, dict) and b.get("rk") == "enum":
+                        r = st["kind"] == b.get("n")
+                        return r if c["op"] == "==" else not r
+                if any(is_call(y, name="index") for y in walk(c)) and any(x.get("k") == "mem" and x.get("n") == "m_value" for x in walk(c)):
+                    return st["same"] if c["op"] == "==" else not st["same"]
+            if k == "call" and c.get("op") in ("==", "!=") and any(is_call(y, name="index") for y in walk(c)) and \
+                    any(x.get("k") == "mem" and x.get("n") == "m_value" for x in walk(c)):
+                return st["same"] if c["op"] == "==" else not st["same"]
+            raise _Unk(src(c)[:50])
+
+        def run(n, st):
+            if not isinstance(n, dict):
+                return
+            k = n.get("k")
+            if k == "seq":
+                for x in n.get("b", []):
+                    run(x, st)
+            elif k == "if":
+                if cond(n.get("c"), st):
+                    run(n.get("t"), st)
+                elif "e" in n:
+                    run(n.get("e"), st)
+            elif k == "asg" and isinstance(strip(n.get("L")), dict) and strip(n["L"]).get("n") == "m_kind":
+                r = strip(n.get("R"))
+                if not (isinstance(r, dict) and r.get("rk") == "enum"):
+                    raise _Unk("m_kind := " + src(r)[:30])
+                st["kind"] = r.get("n")
+            elif k == "do" and n.get("m") == "CRAB_ERROR":
+                st["kind"] = "ERROR"
+            elif k in ("while", "for", "rangefor", "do", "switch"):
+                raise _Unk(k)
+        for kind, want in KINDS.items():
+            for same in (False, True):
+                st = {"kind": kind, "same": same}
+                try:
+                    run(body, st)
+                except _Unk as e:
+                    ctx.undecided("small_range::increment: cannot interpret `%s`" % e, fn, body)
+                    continue
+                if st["kind"] == want:
+                    ctx.ok("increment: %s%s -> %s" % (kind, " (same variable)" if same else "", want), fn, body)
+                else:
+                    ctx.bad("small_range::increment maps %s%s to %s, it must be %s: with the counter at 1(p), `q := gep_ref(R, p); p := "
+                            "make_ref(R)` leaves two live cells but stores and loads through p and q stay strong (store(p,2) after "
+                            "store(old p,1), load(q) = [2,2])" % (kind, " incremented for the recorded variable" if same else "",
+                                                                  st["kind"], want), fn, body,
+                            sig="refcount-same-variable" if same else "refcount-table:%s" % kind)
+
+
+RULES += [r7_increment_table]
